@@ -975,6 +975,7 @@ class Ctx:
         self.obligations = []  # (label, status, seconds)
         self.violations = []
         self.notes = []
+        self.contribs = []  # (tag, payload): this path's share of a quantity decided over ALL paths of its configuration
         self.xchecks = []
         self.solver_time = 0.0
         self.solver_calls = 0
@@ -1231,6 +1232,11 @@ class Ctx:
 
     def note(self, s):
         self.notes.append(s)
+
+    def contribute(self, tag, payload):
+        """record this path's share of a cross-path quantity (e.g. outcome + probability of the path's resolution of the discrete
+        draws); the harness' finalize(cfg, tag, records, complete) decides the obligation once every path of the configuration is in"""
+        self.contribs.append((tag, payload))
 
     # -- obligations --------------------------------------------------------------------------
     def model_values(self, m):
